@@ -46,7 +46,11 @@ def run_table(rep, pid, cmd, gen_args, module, cfg, classify, replay_in=None, sa
         seen = set()
         for l in sorted(bad):
             line = lines[l - 1]
-            sig, text = classify(line, sorted(set(bad[l])))
+            tags = sorted(set(bad[l]))
+            if all(t.startswith("drift_") for t in tags):
+                rep.drift.append("%s at line %d" % (",".join(tags), l))
+                continue
+            sig, text = classify(line, [t for t in tags if not t.startswith("drift_")])
             k = vlib.known_match(pid, sig)
             if k:
                 if k["id"] not in seen:
@@ -61,7 +65,7 @@ def run_table(rep, pid, cmd, gen_args, module, cfg, classify, replay_in=None, sa
                 path = rep.replay_of
             else:
                 path = vlib.save_replay(pid, "%s_line%d_seed%d" % (cmd, l, rep.seed),
-                                        {"property": pid, "kind": cmd + "-line", "line": line, "failed": sig})
+                                        {"property": pid, "kind": cmd + "-line", "line": line, "failed": sig, "seed": rep.seed})
             rep.violation(path, text)
         rep.extra.setdefault("bad_lines", 0)
         rep.extra["bad_lines"] += len(bad)
